@@ -22,6 +22,13 @@ func C03(tier string, seed uint64) int {
 func C07(tier string, seed uint64) int {
 	n, budget := compSizes(tier, 400, 100, 20000, 900)
 	b := &CompBatch{Property: "C07", Engine: "streamsim", Tier: tier, Seed: seed, Level: "fault_enumeration", N: n, BudgetS: budget,
+		ExtraPerProc: func(p int) []string {
+			if p%2 == 1 {
+				// The custom column codec decodes in place through the stream's gob decoder.
+				return []string{"VERIF_CUSTOM_CODEC=gob"}
+			}
+			return nil
+		},
 		Assume: []string{"damage of large streams is restricted to error classes a CRC-32 is guaranteed to detect (one burst <= 32 bits or <= 3 bit errors per batch < 11 KB); arbitrary wide damage escapes a 32-bit checksum with probability 2^-32 and is not used as an oracle case"}}
 	return b.Run()
 }
@@ -32,10 +39,14 @@ func C17(tier string, seed uint64) int {
 	b := &CompBatch{Property: "C17", Engine: "readersim", Tier: tier, Seed: seed, Level: "exploration", N: n, BudgetS: budget,
 		ExtraPerProc: func(p int) []string {
 			chunk := []int{0, 0, 2, 4, 16, 64, 256, 1}[p%8]
-			if chunk == 0 {
-				return nil
+			var env []string
+			if p/8%2 == 1 || p%8 == 1 {
+				env = append(env, "VERIF_CUSTOM_CODEC=gob")
 			}
-			return []string{fmt.Sprintf("VERIF_CHUNK=%d", chunk)}
+			if chunk == 0 {
+				return env
+			}
+			return append(env, fmt.Sprintf("VERIF_CHUNK=%d", chunk))
 		},
 		Assume: []string{"the reader func reader (ReaderFunc) hands the whole destination to user code after zeroing it, so the 'rows beyond n stay untouched' clause is not applied to it; after a non-EOF error the contents of the destination are unspecified"}}
 	return b.Run()
